@@ -109,10 +109,23 @@ func nickRun(e *Env) {
 		}
 	}
 	connNo := 0
+	joined := false
 	stage := "start"
 	serverDone := false
 	var c *client.Conn
 	others := []string{}
+	// joinChannel puts the client on a channel with the other users (tracking):
+	// done only after the first checkpoint, because the JOIN handler calls Me(),
+	// which would refresh Config().Me and hide a stale or nil value
+	joinChannel := func() {
+		if track && !joined && serverNick != "" {
+			joined = true
+			l.SendLine(":" + serverNick + "!ident@host.sim JOIN #n")
+			l.SendLine(":irc.sim 353 " + serverNick + " = #n :" + serverNick + " " + strings.Join(others, " "))
+			l.SendLine(":irc.sim 366 " + serverNick + " #n :End")
+			simrt.Settle(20 * time.Second)
+		}
+	}
 	checkpoint := func(where string) bool {
 		simrt.Settle(20 * time.Second)
 		cm := c.Config().Me // sampled before Me(), which refreshes it
@@ -190,14 +203,8 @@ func nickRun(e *Env) {
 		}
 		serverNick = final
 		l.SendLine(":irc.sim 001 " + final + " :Welcome to the sim " + final + "!ident@host.sim")
-		if track {
-			l.SendLine(":" + final + "!ident@host.sim JOIN #n")
-			others = []string{final + "_", final[:len(final)/2+1] + "~o", "zed"}
-			l.SendLine(":irc.sim 353 " + final + " = #n :" + final + " " + strings.Join(others, " "))
-			l.SendLine(":irc.sim 366 " + final + " #n :End")
-		} else {
-			others = []string{final + "_", "zed"}
-		}
+		others = []string{final + "_", final[:len(final)/2+1] + "~o", "zed"}
+		joined = false
 		stage = "welcomed"
 	}
 	e.OnDial = func(nl *simnet.Link) {
@@ -226,6 +233,7 @@ func nickRun(e *Env) {
 	if !checkpoint("after the welcome") {
 		return
 	}
+	joinChannel()
 	uniq := 0
 	for i, x := range evs {
 		if e.S.Failed() {
@@ -319,6 +327,10 @@ func nickRun(e *Env) {
 				return
 			}
 			where += " (reconnect)"
+			if !checkpoint("after " + where) {
+				return
+			}
+			joinChannel()
 		}
 		if !checkpoint("after " + where) {
 			return
